@@ -188,7 +188,8 @@ def groups(tier: str):
     sel = [sh for sh in cat23 if len(sh) == 3 and _nsym(sh) <= 3 and any(len(ch) == 0 for _, ch in sh)]
     if tier == "quick":
         for i, sh in enumerate(sel):
-            add("L2R3z-%03d" % i, sh, 2)
+            if i % 2 == 0:  # every second shape of this family in the quick tier (all of them in the thorough tier)
+                add("L2R3z-%03d" % i, sh, 2)
     else:
         for i, sh in enumerate(cat23):
             if len(sh) == 3 and _nsym(sh) <= 5:
@@ -319,7 +320,7 @@ def meta(tier):
                       Function, DefaultList],
         "bounds": {
             "quick": "all ordered rule lists (mod label renaming) with <=2 labels, <=2 rules, arity <=2 (105 shapes); "
-                     "3-rule lists over 2 labels with <=3 shifts containing a 0-ary rule; shifts symbolic in [-2,2]; "
+                     "every second of the 316 3-rule lists over 2 labels with <=3 shifts containing a 0-ary rule; shifts symbolic in [-2,2]; "
                      "the three test_forest universes with a window of 3 shifts symbolic within +-1 of the typed-in value",
             "thorough": "all 3-rule lists over <=2 labels with <=5 shifts; 3-rule lists over exactly 3 labels with <=4 "
                         "shifts; shifts in [-2,2]; 2-rule lists with shifts in [-3,3]; sliding windows over the test universes",
